@@ -75,6 +75,15 @@ func (s *k4Sup) Init(args ...any) (act.SupervisorSpec, error) {
 	s.sc = args[0].(*k4Scenario)
 	return s.sc.spec, nil
 }
+type k4Start struct{ name gen.Atom }
+
+// management calls have to be made from the supervisor's own callbacks
+func (s *k4Sup) HandleMessage(from gen.PID, message any) error {
+	if m, ok := message.(k4Start); ok {
+		s.StartChild(m.name)
+	}
+	return nil
+}
 func (s *k4Sup) Terminate(reason error) {
 	s.sc.add(k4Ev{"supterm", "", s.PID(), supReasonS(reason)})
 }
@@ -114,15 +123,13 @@ func runSupK4(c *Ctx) {
 	for it := 0; it < n; it++ {
 		g := c.Rng.Fork()
 		cfg := supRandCfg(g)
-		for cfg.Kind == "sofo" { // dynamic children need management calls from inside the supervisor: not driven here
-			cfg = supRandCfg(g)
-		}
+
 		cfg.K = 1 + g.Intn(2)
 		cfg.Period = 5
 		k4Seq++
 		prefix := fmt.Sprintf("k%d_", k4Seq)
 		sc := &k4Scenario{}
-		sc.spec = act.SupervisorSpec{Type: map[string]act.SupervisorType{"ofo": act.SupervisorTypeOneForOne, "afo": act.SupervisorTypeAllForOne, "rfo": act.SupervisorTypeRestForOne}[cfg.Kind],
+		sc.spec = act.SupervisorSpec{Type: map[string]act.SupervisorType{"ofo": act.SupervisorTypeOneForOne, "afo": act.SupervisorTypeAllForOne, "rfo": act.SupervisorTypeRestForOne, "sofo": act.SupervisorTypeSimpleOneForOne}[cfg.Kind],
 			DisableAutoShutdown: cfg.DAS,
 			Restart:             act.SupervisorRestart{Strategy: act.SupervisorStrategy(cfg.Strategy), Intensity: uint16(cfg.K), Period: uint16(cfg.Period), KeepOrder: cfg.KO}}
 		nameOf := map[string]int{}
@@ -139,6 +146,13 @@ func runSupK4(c *Ctx) {
 		sim := newSupSim(c, g, cfg)
 		sim.smallGaps = true
 		sim.initRun()
+		if cfg.Kind == "sofo" {
+			// one dynamic child per spec (so that the spec name identifies the child in the trace)
+			for _, ch := range cfg.Children {
+				node.Send(supPid, k4Start{gen.Atom(fmt.Sprintf("%sc%d", prefix, ch.Name))})
+				sim.api("start", ch.Name, 0)
+			}
+		}
 		k4Quiesce(sc)
 		var script []string
 		ok := true
